@@ -376,3 +376,115 @@ pub fn c09(cx: &RunCtx) {
     };
     run_cfg(cx, cfg);
 }
+
+// ---------------------------------------------------------------- union-of-everything trees for C01 / C02
+
+fn complex_pool_full() -> Vec<Leaf<Cpx>> {
+    let mut p = crate::cchecks::pool_cpx();
+    for v in Cpx::pool_full() {
+        p.push(Leaf::at(v));
+    }
+    p.push(Leaf::of(lit("0")));
+    p
+}
+
+fn all_bins(ev: refmodel::vocab::Ev) -> Vec<BinKind> {
+    use refmodel::vocab::*;
+    use BinOp::*;
+    let mut b: Vec<BinKind> = vec![BinKind::Op(Add), BinKind::Op(Sub), BinKind::Op(Mul), BinKind::Op(Div), BinKind::Op(Pow)];
+    if ev.has_percent() {
+        b.push(BinKind::Op(Rem));
+    }
+    if ev.has_bitops() {
+        for o in [And, Or, Shl, Shr] {
+            b.push(BinKind::Op(o));
+        }
+    }
+    let mut seen = vec![];
+    for (_, f) in func_names(ev) {
+        if seen.contains(f) {
+            continue;
+        }
+        seen.push(*f);
+        match f.arity() {
+            Arity::Fixed(2) | Arity::Var0 | Arity::Var1 => b.push(BinKind::Call(*f)),
+            _ => {}
+        }
+    }
+    b
+}
+
+fn all_uns(ev: refmodel::vocab::Ev) -> Vec<UnOp> {
+    use refmodel::vocab::*;
+    let mut u = vec![UnOp::Neg, UnOp::Sup2];
+    if ev.has_factorial() {
+        u.push(UnOp::Fact);
+    }
+    if ev.has_deg_rad() {
+        u.push(UnOp::Deg);
+        u.push(UnOp::Rad);
+    }
+    if ev.has_floor_brackets() {
+        u.push(UnOp::Floor);
+        u.push(UnOp::Ceil);
+    }
+    let mut seen = vec![];
+    for (_, f) in func_names(ev) {
+        if seen.contains(f) {
+            continue;
+        }
+        seen.push(*f);
+        match f.arity() {
+            Arity::Fixed(1) | Arity::Var0 | Arity::Var1 => u.push(UnOp::Call(*f)),
+            _ => {}
+        }
+    }
+    u
+}
+
+fn extend_with_placeholders<D: Dom>(mut pool: Vec<Leaf<D>>) -> Vec<Leaf<D>> {
+    for v in D::pool_full() {
+        pool.push(Leaf::at(v));
+    }
+    pool
+}
+
+fn all_ops_dom<D: Dom>(cx: &RunCtx, kinds: &[Kind], pool: Vec<Leaf<D>>, small: Vec<Leaf<D>>) {
+    // depth 1 over the full pool (every operator / function x every pair of boundary operands and
+    // placeholders), depth 2 over the small pool (quick) or the full pool (thorough)
+    let quick = cx.tier == Tier::Quick;
+    let cfg1 = TreeCfg::<D> {
+        engine: "E-TREE every operator and function x full boundary pool (depth 1)".into(),
+        bins: all_bins(D::EV),
+        uns: all_uns(D::EV),
+        pool: pool.clone(),
+        pool3: vec![],
+        depth: 1,
+        kinds,
+        judge: None,
+        on_ok: None,
+        family: None,
+    };
+    run_cfg(cx, cfg1);
+    let cfg2 = TreeCfg::<D> {
+        engine: "E-TREE every operator and function (depth 2)".into(),
+        bins: all_bins(D::EV),
+        uns: all_uns(D::EV),
+        pool: if quick { small } else { pool },
+        pool3: vec![],
+        depth: 2,
+        kinds,
+        judge: None,
+        on_ok: None,
+        family: None,
+    };
+    run_cfg(cx, cfg2);
+}
+
+pub fn all_ops_trees(cx: &RunCtx, kinds: &[Kind]) {
+    all_ops_dom::<F64>(cx, kinds, extend_with_placeholders(pool_f64()), pool_f64_small());
+    all_ops_dom::<I64>(cx, kinds, extend_with_placeholders(pool_i64()), pool_i64_small());
+    all_ops_dom::<Dec>(cx, kinds, extend_with_placeholders(pool_dec()), pool_dec_small());
+    all_ops_dom::<Cpx>(cx, kinds, complex_pool_full(), crate::cchecks::pool_cpx().into_iter().take(10).collect());
+    all_ops_dom::<Num>(cx, kinds, extend_with_placeholders(pool_num()), pool_num_small());
+}
